@@ -47,7 +47,7 @@ LOCAL IsTarget(n) == n.k \in {"sym", "idx"}
 
 RECURSIVE PyExpr(_, _), PyOr(_, _), PyOrTail(_, _, _), PyAnd(_, _), PyAndTail(_, _, _), PyNot(_, _),
           PyCompare(_, _), PyCmpTail(_, _, _, _), PyBin(_, _, _), PyClimb(_, _, _, _), PyFactor(_, _),
-          PyPower(_, _), PyTrailers(_, _, _), PyAtom(_, _), PyItems(_, _, _, _), PyArg(_, _)
+          PyPower(_, _), PyTrailers(_, _, _), PyAtom(_, _), PyItems(_, _, _, _), PyItemsK(_, _, _, _), PyItemsAll(_, _, _, _), PyArg(_, _)
 
 \* conditional expression:  t if c else f   (else-branch is again an expression: right-associative)
 PyExpr(toks, p) ==
@@ -131,14 +131,33 @@ PyTrailers(toks, lhs, p) ==
                                [] OTHER -> N("subscript", "", <<lhs>> \o ix.n.a), ix.p)
   ELSE Res(lhs, p)
 
-\* comma-separated items up to and including `closer`; s = "," iff a trailing comma was seen
+\* comma-separated items up to and including `closer`; s = "," iff a trailing comma was seen.
+\* Long lists (np.array tables) are read by doubling: PyItemsK reads at most 2^k items.
 PyItems(toks, p, acc, closer) ==
-  IF IsOp(toks, p, closer) THEN Res(N("items", IF acc = <<>> THEN "" ELSE ",", acc), p + 1)
-  ELSE LET e == PyArg(toks, p) IN
+  LET it == PyItemsAll(toks, p, 0, closer) IN
+  IF IsErr(it) THEN it
+  ELSE Res(N("items", IF it.n.a # <<>> /\ IsOp(toks, it.p - 1, ",") THEN "," ELSE "", it.n.a), it.p + 1)
+
+PyItemsK(toks, p, k, closer) ==
+  IF IsOp(toks, p, closer) \/ p > Len(toks) THEN Res(N("items", "", <<>>), p)
+  ELSE IF k = 0
+  THEN LET e == PyArg(toks, p) IN
        IF IsErr(e) THEN e
-       ELSE IF IsOp(toks, e.p, ",") THEN PyItems(toks, e.p + 1, Append(acc, e.n), closer)
-       ELSE IF IsOp(toks, e.p, closer) THEN Res(N("items", "", Append(acc, e.n)), e.p + 1)
+       ELSE IF IsOp(toks, e.p, ",") THEN Res(N("items", "", <<e.n>>), e.p + 1)
+       ELSE IF IsOp(toks, e.p, closer) THEN Res(N("items", "", <<e.n>>), e.p)
        ELSE Err("expected ',' or '" \o closer \o "'", e.p)
+  ELSE LET l == PyItemsK(toks, p, k - 1, closer) IN
+       IF IsErr(l) THEN l
+       ELSE LET r == PyItemsK(toks, l.p, k - 1, closer) IN
+            IF IsErr(r) THEN r ELSE Res(N("items", "", l.n.a \o r.n.a), r.p)
+
+PyItemsAll(toks, p, k, closer) ==
+  LET l == PyItemsK(toks, p, k, closer) IN
+  IF IsErr(l) THEN l
+  ELSE IF IsOp(toks, l.p, closer) THEN l
+  ELSE IF l.p > Len(toks) THEN Err("missing '" \o closer \o "'", l.p)
+  ELSE LET r == PyItemsAll(toks, l.p, k + 1, closer) IN
+       IF IsErr(r) THEN r ELSE Res(N("items", "", l.n.a \o r.n.a), r.p)
 
 \* an item: expression, or keyword argument NAME = expression
 PyArg(toks, p) ==
@@ -165,7 +184,7 @@ PyAtom(toks, p) ==
 ---------------------------------------------------------------------------
 \* statements
 
-RECURSIVE PyStmt(_, _), PyStmts(_, _, _), PyAssignTail(_, _, _)
+RECURSIVE PyStmt(_, _), PyStmts(_, _, _), PyStmtsK(_, _, _), PyStmtsAll(_, _, _), PyAssignTail(_, _, _)
 
 LOCAL IsNl(toks, p) == Tok(toks, p).t = "nl"
 
@@ -205,9 +224,23 @@ PyAssignTail(toks, lhs, p) ==
                  ELSE Res(N("assign", tk.v, <<lhs, r.n>>), r.p)
   ELSE Res(lhs, p)
 
-PyStmts(toks, p, acc) ==
-  IF p > Len(toks) \/ Tok(toks, p).t = "dedent" THEN Res(N("stmts", "", acc), p)
-  ELSE LET s == PyStmt(toks, p) IN IF IsErr(s) THEN s ELSE PyStmts(toks, s.p, Append(acc, s.n))
+\* statements up to a DEDENT or the end of input, by doubling (see PyItemsK)
+PyStmtsK(toks, p, k) ==
+  IF p > Len(toks) \/ Tok(toks, p).t = "dedent" THEN Res(N("stmts", "", <<>>), p)
+  ELSE IF k = 0 THEN LET s == PyStmt(toks, p) IN IF IsErr(s) THEN s ELSE Res(N("stmts", "", <<s.n>>), s.p)
+  ELSE LET l == PyStmtsK(toks, p, k - 1) IN
+       IF IsErr(l) THEN l
+       ELSE LET r == PyStmtsK(toks, l.p, k - 1) IN
+            IF IsErr(r) THEN r ELSE Res(N("stmts", "", l.n.a \o r.n.a), r.p)
+
+PyStmtsAll(toks, p, k) ==
+  LET l == PyStmtsK(toks, p, k) IN
+  IF IsErr(l) THEN l
+  ELSE IF l.p > Len(toks) \/ Tok(toks, l.p).t = "dedent" THEN l
+  ELSE LET r == PyStmtsAll(toks, l.p, k + 1) IN
+       IF IsErr(r) THEN r ELSE Res(N("stmts", "", l.n.a \o r.n.a), r.p)
+
+PyStmts(toks, p, acc) == PyStmtsAll(toks, p, 0)
 
 ---------------------------------------------------------------------------
 ParsePyExpr(toks) ==
